@@ -37,6 +37,7 @@ def lift_array(x):
 def conc(x):
     if isinstance(x, (V.SymFloat, V.SymInt, V.SymBool)):
         from .session import eval_under
+        core.current().activate_all()
         return eval_under(core.current()._ensure_model(), x)
     if x is np.ma.masked:
         return NAN
